@@ -90,6 +90,13 @@ claimed.update({
    technique="explicit enumeration of small graphs x formats and of single mutations of reduced real SBOMs with an independent JSON census",
    design="5/C03"),
 })
+claimed.update({
+ "C05": dict(
+   text="Bounded exhaustive exploration of the real reader on generated schema-valid inputs: every CycloneDX 1.3/1.4/1.5 component forest with <=3 (thorough 4) components, nesting <=3, references over {absent,a,b} (duplicates between siblings, parent/child, root/child) and metadata component {absent, with ref, without ref}; every SPDX 2.3 combination of <=2 (thorough 3) packages/files with duplicate ids, relationship lists over {a,b,dangling,DOCUMENT,NONE,NOASSERTION} endpoints, documentDescribes and hasFiles; plus real SBOMs; each parsed under every layout of a finite re-encoding group (whitespace x member-order permutations x \\uXXXX escapes of values and keys), twice, auto-detected and with explicit format: ids non-empty and as unique as the input's, closure when the input's references resolve, generated ids identifier-safe and reproducible, equal snapshots across the group. NewNodeIdentifier on every seed string of <=3 symbols x 7 argument forms.",
+   note="Trusted: the JSON re-encoder (order-preserving tree) and gen.Canon. One known finding in third-party code (escaped SPDX identifiers).",
+   technique="explicit enumeration of generated inputs x a finite re-encoding group with invariant and snapshot-equality oracles",
+   design="5/C05"),
+})
 pending = {}
 all_ids = ["C%02d" % i for i in range(1, 21)]
 checks = []
